@@ -644,6 +644,75 @@ Section Sel2.
   Qed.
 End Sel2.
 
+(* ------------------------------------------------------------------ wallet bookkeeping *)
+Definition ids_of (w : wallet) : list N := map (fun e => uid (fst e)) w.
+
+Lemma mem_id_true i ids : mem_id i ids = true <-> In i ids.
+Proof.
+  unfold mem_id. rewrite existsb_exists. split.
+  - intros [x [H1 H2]]. apply N.eqb_eq in H2. subst; assumption.
+  - intro H. exists i. split; [assumption | apply N.eqb_refl].
+Qed.
+Lemma mem_id_false i ids : mem_id i ids = false <-> ~ In i ids.
+Proof. rewrite <- mem_id_true. destruct (mem_id i ids); split; congruence. Qed.
+
+Lemma in_set_reserved u f flag ids w :
+  In (u, f) (set_reserved flag ids w) <->
+  (In (u, f) w /\ ~ In (uid u) ids) \/ (f = flag /\ In (uid u) ids /\ exists f0, In (u, f0) w).
+Proof.
+  unfold set_reserved. rewrite in_map_iff. split.
+  - intros [[u0 f0] [E H]]. simpl in E. destruct (mem_id (uid u0) ids) eqn:M.
+    + inversion E; subst. right. split; [reflexivity|]. split; [apply mem_id_true; assumption | eauto].
+    + inversion E; subst. left. split; [assumption | apply mem_id_false; assumption].
+  - intros [[H Hn]|[-> [Hi [f0 H]]]].
+    + exists (u, f). simpl. apply mem_id_false in Hn. rewrite Hn. auto.
+    + exists (u, f0). simpl. apply mem_id_true in Hi. rewrite Hi. auto.
+Qed.
+Lemma ids_set_reserved flag ids w : ids_of (set_reserved flag ids w) = ids_of w.
+Proof.
+  unfold ids_of, set_reserved. rewrite map_map. apply map_ext. intros [u f]; simpl.
+  destruct (mem_id _ _); reflexivity.
+Qed.
+Lemma fst_set_reserved flag ids w : map fst (set_reserved flag ids w) = map fst w.
+Proof.
+  unfold set_reserved. rewrite map_map. apply map_ext. intros [u f]; simpl.
+  destruct (mem_id _ _); reflexivity.
+Qed.
+Lemma NoDup_map_filter {A B} (g : A -> B) (p : A -> bool) l : NoDup (map g l) -> NoDup (map g (filter p l)).
+Proof.
+  induction l as [|a l IH]; simpl; intro H; [constructor|].
+  apply NoDup_cons_iff in H. destruct H as [H1 H2]. destruct (p a); simpl; [|auto].
+  constructor; [|auto]. intro Hin. apply H1. apply in_map_iff in Hin. destruct Hin as [x [E Hx]].
+  apply filter_In in Hx. rewrite <- E. apply in_map; tauto.
+Qed.
+Lemma ids_unique w u f u' f' :
+  NoDup (ids_of w) -> In (u, f) w -> In (u', f') w -> uid u = uid u' -> u = u' /\ f = f'.
+Proof.
+  intros N H1 H2 E.
+  assert ((u, f) = (u', f')) by (apply (NoDup_map_inj_on (fun e : utxo * bool => uid (fst e)) w); assumption).
+  inversion H; auto.
+Qed.
+Lemma in_unreserved u w : In u (unreserved w) <-> In (u, false) w.
+Proof.
+  unfold unreserved. rewrite in_map_iff. split.
+  - intros [[u0 f0] [E H]]. apply filter_In in H. simpl in *. destruct H as [H Hf]. subst.
+    destruct f0; [discriminate | assumption].
+  - intro H. exists (u, false). split; [reflexivity|]. apply filter_In. auto.
+Qed.
+Lemma NoDup_unreserved w : NoDup (ids_of w) -> NoDup (map uid (unreserved w)).
+Proof.
+  intro H. unfold unreserved. rewrite map_map. apply (NoDup_map_filter (fun e : utxo * bool => uid (fst e))). exact H.
+Qed.
+Lemma in_reserved_ids i w : In i (reserved_ids w) <-> exists u, In (u, true) w /\ uid u = i.
+Proof.
+  unfold reserved_ids. rewrite in_map_iff. split.
+  - intros [[u f] [E H]]. apply filter_In in H. simpl in *. destruct H as [H Hf]. subst. exists u; auto.
+  - intros [u [H E]]. exists (u, true). split; [assumption|]. apply filter_In; auto.
+Qed.
+Lemma in_map_uid i l : In i (map uid l) <-> exists u : utxo, In u l /\ uid u = i.
+Proof. rewrite in_map_iff. split; intros [u [A B]]; exists u; auto. Qed.
+
+
 (* ------------------------------------------------------------------ statements in plain list terms *)
 Lemma sound_plain fpb target txos r :
   sound fpb target txos r ->
